@@ -23,6 +23,7 @@ PROPS = {
     "C03": dict(mod="checks.c03", quick_runs=64, thorough_s=1500, opts=dict(episodes=4, wall_p=0.0), thorough_opts=dict(episodes=6)),
     "C04": dict(mod="checks.c04", quick_runs=64, thorough_s=1500, opts=dict(episodes=3), thorough_opts=dict(episodes=5)),
     "C05": dict(mod="checks.c05", quick_runs=64, thorough_s=1500, opts=dict()),
+    "C06": dict(mod="checks.c06", quick_runs=48, thorough_s=1500, opts=dict(max_nodes=4, max_steps=8, compiled_p=0.4), thorough_opts=dict(max_nodes=5, max_steps=12, compiled_p=0.6)),
 }
 
 
